@@ -551,7 +551,11 @@ where
                         if self.options.transform_on
                             && (attr_name == "on" || attr_name == "nativeOn")
                         {
-                            merge_args.push(Expr::Call(CallExpr {
+                            // the converted listeners are merged like a spread, so they
+                            // must keep their source position among the other props
+                            has_dynamic_keys = true;
+                            dynamic_props.shift_remove(&attr_name);
+                            let listeners = Expr::Call(CallExpr {
                                 span: DUMMY_SP,
                                 callee: Callee::Expr(Box::new(Expr::Ident(
                                     self.transform_on_helper
@@ -563,7 +567,21 @@ where
                                     expr: attr_value,
                                 }],
                                 ..Default::default()
-                            }));
+                            });
+                            if self.options.merge_props {
+                                if !props.is_empty() {
+                                    merge_args.push(Expr::Object(ObjectLit {
+                                        span: DUMMY_SP,
+                                        props: util::dedupe_props(mem::take(&mut props)),
+                                    }));
+                                }
+                                merge_args.push(listeners);
+                            } else {
+                                props.push(PropOrSpread::Spread(SpreadElement {
+                                    dot3_token: DUMMY_SP,
+                                    expr: Box::new(listeners),
+                                }));
+                            }
                         } else {
                             props.push(PropOrSpread::Prop(Box::new(Prop::KeyValue(
                                 KeyValueProp {
